@@ -3,6 +3,7 @@
 spec/Pruning.tla (laws ZoneMapSound / BloomSound / NgramSound over all zones of <= MaxZone cells and all accepted
 predicates; state machine append / delete / index / optimize / query with IndexedScanEqualsFullScan),
 spec/Trace_Pruning.tla (IndexedScanEqualsEval, SearchSuperset), harness vh_pruning."""
+import concurrent.futures as cf
 import random
 import time
 
@@ -15,31 +16,36 @@ NGM = ["N_NgAdd", "N_NgBuild", "N_NgQuery"]
 
 
 def run(prop, tier, replay):
+    if replay:
+        return P.replay(prop, replay, OWN)
     t0 = time.time()
     out = vlib.Outcome(prop)
     rnd = random.Random(vlib.seed())
     quick = tier == "quick"
     # 1. the design: laws and state machines; the as-built deviations must violate -----------------------------
     small_alpha = '{"a", "U"}'
+    inv = "TypeOK LawsC20 IndexedScanEqualsFullScan"
     runs = [
-        ("laws-int", dict(kind="int", k=3, mz=3), None, []),
-        ("laws-float", dict(kind="float", k=6, mz=2 if quick else 3), None, []),
-        ("laws-text", dict(kind="text", mstr=3 if quick else 4), None, []),
-        ("machine-zonemap", dict(mode="zone", itype="zonemap", k=0, mz=1, rz=2, mf=2, mr=3 if quick else 4), None, MACHINE),
-        ("machine-bloom", dict(mode="zone", itype="bloom", k=0, mz=1, rz=2, mf=2, mr=3), None, MACHINE),
-        ("machine-ngram", dict(mode="ngram", kind="text", alpha=small_alpha, mstr=3, mr=2 if quick else 3), None, NGM),
-        ("asbuilt-zone-addresses", dict(mode="zone", itype="zonemap", k=0, mz=1, rz=2, mf=2, mr=3,
+        ("laws-int", dict(kind="int", k=3, mz=3, inv=inv), None, []),
+        ("laws-float", dict(kind="float", k=6, mz=2 if quick else 3, inv=inv), None, []),
+        ("laws-text", dict(kind="text", mstr=3 if quick else 4, inv=inv), None, []),
+        ("machine-zonemap", dict(mode="zone", itype="zonemap", k=0, mz=1, rz=2, mf=2, mr=3 if quick else 5, inv=inv), None, MACHINE),
+        ("machine-bloom", dict(mode="zone", itype="bloom", k=0, mz=1, rz=2, mf=2, mr=3 if quick else 4, inv=inv), None, MACHINE),
+        ("machine-ngram", dict(mode="ngram", kind="text", alpha=small_alpha, mstr=3, mr=2 if quick else 3, inv=inv), None, NGM),
+        ("asbuilt-zone-addresses", dict(mode="zone", itype="zonemap", k=0, mz=1, rz=2, mf=2, mr=3, inv=inv,
                                         dev='{"ZoneRangeFromCounts", "FragmentGapNotDetected"}'), "IndexedScanEqualsFullScan", []),
-        ("asbuilt-ngram", dict(kind="text", mstr=3, dev='{"NgramNoTrigramIsEmpty", "AtLeastReadsOnlyGuaranteed"}'), "Laws", []),
+        ("asbuilt-ngram", dict(kind="text", mstr=3, inv=inv, dev='{"NgramNoTrigramIsEmpty", "AtLeastReadsOnlyGuaranteed"}'), "LawsC20", []),
     ]
-    mc_info, states, trans, problems = P.model_check(prop, runs)
-    for name, text in problems:
-        out.report({"spec": "Pruning", "run": name}, text, {})
+    # (the model runs go on in the background while the scenarios are generated, executed and validated)
+    pool = cf.ThreadPoolExecutor(max_workers=4)
+    mc = pool.submit(P.model_check, prop, runs)
     # 2. predicates and strings from TLC; universes and histories ------------------------------------------------
-    atoms3 = P.printed(prop, "ATOMS", "AtomList", kind="int", k=3)
-    atoms6 = P.printed(prop, "ATOMS", "AtomList", kind="float", k=6)
-    preds3 = P.printed(prop, "PREDS", "PredList", kind="int", k=3)
-    strs = P.printed(prop, "STRS", "StrList", kind="text", mstr=3)
+    g3 = pool.submit(P.printed, prop, "lists3", ["ATOMS", "PREDS"], kind="int", k=3)
+    g6 = pool.submit(P.printed, prop, "lists6", ["ATOMS"], kind="float", k=6)
+    gs = pool.submit(P.printed, prop, "strs", ["STRS"], kind="text", mstr=3)
+    atoms3, preds3 = g3.result()["ATOMS"], g3.result()["PREDS"]
+    atoms6 = g6.result()["ATOMS"]
+    strs = gs.result()["STRS"]
     a6 = atoms6 if not quick else rnd.sample(atoms6, 70)
     hp3 = atoms3 + rnd.sample([p for p in preds3 if p not in atoms3], 24 if quick else 120)
     hp6 = a6 if quick else atoms6
@@ -66,10 +72,14 @@ def run(prop, tier, replay):
     g[("text", 0)] += P.ngram_scenarios(strings, queries, rnd, tier)
     # 3. run on the implementation, 4. validate ---------------------------------------------------------------------
     results, build_s = P.run_groups(prop, g)
+    mc_info, states, trans, problems = mc.result()
+    for name, text in problems:
+        out.report({"spec": "Pruning", "run": name}, text, {})
     counts, events, samples, bad_scn, nscn, timing = P.judge(prop, out, results, OWN)
     for key in ("queries", "indexed", "searches", "atmost", "pruned", "zagree", "nontrivial"):
         if counts.get(key, 0) == 0:
             raise vlib.ToolError(f"vacuous run: no {key} events")
+    sigs = counts.pop("findings_by_signature", {})
     rc = out.finish()
     vlib.write_evidence(prop, tier, "model_checking", {
         "states": states, "transitions": trans, "traces_validated_against_impl": nscn - len(bad_scn),
@@ -83,7 +93,7 @@ def run(prop, tier, replay):
                             "universe (all strings of <= 3 characters as rows and as queries) are complete; float / utf8 size-3 zones and "
                             "predicate lists are sampled in the quick tier",
         "model_runs": mc_info, "event_counts": counts, "events_validated": events, "scenarios": nscn,
-        "scenarios_with_findings": len(bad_scn), "invariants_of_this_property": sorted(OWN),
+        "scenarios_with_findings": len(bad_scn), "findings_by_signature": sigs, "invariants_of_this_property": sorted(OWN),
         "zone_answers_equal_to_transcription": counts.get("zagree", 0), "zone_answers_different": counts.get("zdiffer", 0),
         "harness_build_s": build_s, "timing": timing,
     }, time.time() - t0, len(out.violations), [
